@@ -338,6 +338,9 @@ class ExprMixin(EngineCore):
             if isinstance(base, Ref) and META[base.oid].kind == "object":
                 out.extend(self.call_method(s, ctx, base, "__getitem__", [idx], {}, e.lineno))
                 continue
+            if ctx.spec:
+                out.append((s, ops.index_value(s, base, idx)))
+                continue
             inb = ops.index_in_bounds(s, base, idx)
             for s3, ok in self.fork(s, inb):
                 if ok:
